@@ -718,6 +718,11 @@ def pow(x, y, name=None):  # pylint: disable=redefined-builtin
       return P.lift(a) ** int(b.cval)
     if b.is_const and b.cval.numerator == 1 and b.cval > 0:
       return _root(P.lift(a), int(b.cval.denominator))
+    if b.is_const and b.cval > 0:
+      # the float nearest to 1/d (e.g. 1.0 / 3) denotes the d-th root
+      for d in builtin_range(2, 17):
+        if float(b.cval) == 1.0 / d:
+          return _root(P.lift(a), d)
     raise NoContract('pow with exponent %r' % (b,))
   return _binop(f, x, y, name='pow')
 
